@@ -18,7 +18,7 @@ from ..cfg import explore, must_facts, canon_fact, holds
 from ..rules import call_sites
 from ..mutate import mutate, remove_stmts, replace_stmt, replace_expr, parse_stmt, parse_expr
 from ..model import AnalysisError
-from ..x_scope import own_nodes
+from ..x_scope import own_nodes, strip_annotations
 from ..x_flow import check_default_only_for_none, protected, unique_def
 
 TECHNIQUE = "path-sensitive typestate on the CFG with abstract evaluation of the wait-status predicates and exhaustive folding of the budget test"
@@ -471,6 +471,7 @@ def rule_defaults(ck, A):
 
 
 def run(ck):
+    ck.repo = strip_annotations(ck.repo, F)
     ck.rule("C41.defaults", "defaults of max_restarts / num_processes replace only None (resp. documented non-positive counts): every legal caller value, including 0 restarts, reaches its use unchanged")
     ck.rule("C41.initial-start", "each id in range(num_processes) is started exactly once, unconditionally")
     ck.rule("C41.restart-iff-abnormal", "start_child in the supervisor loop is reached only for signalled / non-zero statuses, and every such status is restarted once (or the supervisor raises) before the next wait")
